@@ -132,6 +132,203 @@ def d1_dispatch(chk: Check) -> None:
                  "(filter, break or continue in the relay)")
 
 
+def d1b_views(chk: Check) -> None:
+    """Document data is compared with the *escaped* parse of the path; the
+    unescaped parse is for messages, relayed segments and the collector's
+    inner expression (which is parsed again)."""
+    from sa.views import unescaped_flows
+    prog = chk.prog
+    chk.rule("C01-D1b", "values read from the unescaped parse of a path "
+             "reach only messages, relayed segments, isinstance tests and "
+             "the collector handler (which re-parses its expression); what "
+             "is compared with document data comes from the escaped parse",
+             floor=6)
+    total = 0
+    for fi in prog.funcs_in("yamlpath/processor.py"):
+        if not any(isinstance(x, ast.Attribute) and x.attr == "unescaped"
+                   for x in walk_local(fi.node)):
+            continue
+        chk.analysed(fi)
+        bad, n = unescaped_flows(
+            fi.node, allow_calls=("._get_nodes_by_collector",))
+        total += n
+        for node, why in bad:
+            chk.fail("C01-D1b", fi, node, src(node), why + ": escape marks "
+                     "written in the path would be compared with the data")
+        if not bad:
+            chk.ok("C01-D1b", fi, fi.node, fi.short,
+                   "{} use(s) of unescaped-derived names, all benign".format(
+                       n))
+    if total < 10:
+        raise AnalysisError("only {} uses of the unescaped view found"
+                            .format(total))
+    # the handlers that receive terms directly get the escaped attributes
+    fi = prog.func("Processor._get_nodes_by_path_segment")
+    esc_names = set()
+    for n in walk_local(fi.node):
+        if isinstance(n, ast.Assign) and isinstance(n.targets[0], ast.Tuple):
+            d = n.value
+            if isinstance(d, ast.Subscript) and isinstance(d.value, ast.Name):
+                rd = reaching_def(d.value.id, n)
+                if rd is not None and src(rd).endswith(".escaped"):
+                    esc_names.add(src(n.targets[0].elts[1]))
+            elif isinstance(d, ast.Subscript) and \
+                    src(d.value).endswith(".escaped"):
+                esc_names.add(src(n.targets[0].elts[1]))
+    for c in walk_local(fi.node):
+        if isinstance(c, ast.Call) and src(c.func) in (
+                "self._get_nodes_by_search",
+                "self._get_nodes_by_keyword_search"):
+            terms = [a for a in c.args if isinstance(a, ast.Name) and
+                     a.id not in (fi.params()[1], fi.params()[2])]
+            text = src(c)[:60]
+            if terms and all(t.id in esc_names for t in terms):
+                chk.ok("C01-D1b", fi, c, text,
+                       "terms `{}` unpacked from the escaped parse".format(
+                           terms[0].id))
+            else:
+                chk.fail("C01-D1b", fi, c, text,
+                         "the search terms handed to the handler are not "
+                         "the ones unpacked from `.escaped`")
+
+
+ALL_CHILDREN = {
+    # handler -> why every child of the data must be visited
+    "Processor._get_nodes_by_key":
+        "pass-through: a key segment applied to a list is applied to every "
+        "element",
+    "Processor._get_nodes_by_traversal": "`**` descends into every child",
+    "Processor._get_nodes_by_match_all_unfiltered": "`*` yields every child",
+    "Processor._get_nodes_by_match_all_filtered":
+        "`*` followed by a filter offers every child to the filter",
+}
+
+
+def d7_every_child(chk: Check) -> None:
+    """In the handlers whose documented meaning is "every child", each loop
+    over the children of the data parameter reaches, on every path through
+    one iteration, an evaluator call on that child or a result built from
+    it.  What may be skipped is decided by the callee, not by a filter in
+    the loop."""
+    from sa.flow import Flow
+    prog = chk.prog
+    chk.rule("C01-D7", "loops over the children of the data in the "
+             "all-children handlers (pass-through, `*`, `**`) hand every "
+             "child on, on every path through the iteration", floor=10)
+    for qual, why in ALL_CHILDREN.items():
+        fi = prog.func(qual)
+        chk.analysed(fi)
+        data = fi.params()[1]
+        for loop in walk_local(fi.node):
+            if not isinstance(loop, ast.For):
+                continue
+            it = src(loop.iter)
+            if it not in ("enumerate({})".format(data),
+                          "{}.items()".format(data), data,
+                          "{}.non_merged_items()".format(data)):
+                continue
+            tgt = loop.target
+            child = src(tgt.elts[-1]) if isinstance(tgt, ast.Tuple) \
+                else src(tgt)
+            if qual.endswith("_get_nodes_by_key") and not any(
+                    isinstance(c, ast.Call) and c.args and
+                    src(c.args[0]) == child and
+                    src(c.func).startswith("self._get_")
+                    for c in walk_local(loop)):
+                continue   # a lookup of one key, not the pass-through
+
+            def transfer(stmt: ast.stmt, st, flow, child=child):
+                for c in ast.walk(stmt):
+                    if isinstance(c, ast.Call) and c.args and \
+                            src(c.args[0]) == child and (
+                                src(c.func) == "NodeCoords" or
+                                src(c.func).startswith("self._get_")):
+                        return [True]
+                return [st]
+
+            def branch(test: ast.AST, st, flow):
+                return [st], [st]
+
+            def bind(target, it_expr, st, flow, child=child):
+                # entering an inner `for x in self._get_...(child, ...)`
+                if isinstance(it_expr, ast.Call) and it_expr.args and \
+                        src(it_expr.args[0]) == child and \
+                        src(it_expr.func).startswith("self._get_"):
+                    return [True]
+                return [st]
+            fl = Flow(transfer, branch, bind=bind)
+            out = fl.run(loop.body, [False])
+            # the iterable of an inner for is evaluated even when it yields
+            # nothing: treat a `for ... in self._get_x(child)` statement at
+            # the top level of the body as reaching the call
+            top_calls = [s_ for s_ in loop.body if isinstance(s_, ast.For)
+                         and isinstance(s_.iter, ast.Call) and s_.iter.args
+                         and src(s_.iter.args[0]) == child and
+                         src(s_.iter.func).startswith("self._get_")]
+            ends = list(out.fall) + list(out.continues) + list(out.breaks) \
+                + [st for st, _ in out.returns]
+            text = "{}: for {} in {}".format(fi.node.name, src(tgt), it)
+            exits = [x for x in walk_local(loop)
+                     if isinstance(x, (ast.Continue, ast.Break, ast.Return))]
+            reached = bool(ends) and (all(ends) or (top_calls and not [
+                x for x in exits if x.lineno < top_calls[0].lineno]))
+            if reached:
+                chk.ok("C01-D7", fi, loop, text,
+                       "`{}` handed on, on every path ({})".format(child,
+                                                                   why))
+            else:
+                chk.fail("C01-D7", fi, loop, text,
+                         "some path through the iteration skips `{}` "
+                         "without handing it to the evaluator: {}".format(
+                             child, why))
+
+
+EXHAUSTIVE = ("Processor._get_nodes_by_search",
+              "Processor._get_nodes_by_anchor",
+              "Processor._get_nodes_by_index",
+              "Processor._get_nodes_by_traversal",
+              "Processor._get_nodes_by_match_all_unfiltered",
+              "Processor._get_nodes_by_match_all_filtered")
+
+
+def d8_exhaustive(chk: Check) -> None:
+    """A segment selects *every* child that satisfies it: the loops that
+    enumerate the children of the data run to exhaustion (an anchor name
+    recurs on every alias; several keys can equal one typed term)."""
+    prog = chk.prog
+    chk.rule("C01-D8", "loops that enumerate the children of the data in "
+             "the search / anchor / index / `*` / `**` handlers have no "
+             "early exit", floor=15)
+    chk.rule("C01-D4b", "no test of the search handler consults a raw "
+             "comparison result without the inversion flag", floor=1)
+    for q in EXHAUSTIVE:
+        fi = prog.func(q)
+        data = fi.params()[1]
+        for loop, exits in inversion.exhausting_loops(fi, data):
+            text = "{}: for {} in {}".format(fi.node.name, src(loop.target),
+                                             src(loop.iter)[:30])
+            if exits:
+                chk.fail("C01-D8", fi, exits[0], text,
+                         "`{}` at line {} ends the enumeration early: "
+                         "children after the first hit are never offered"
+                         .format(type(exits[0]).__name__.lower(),
+                                 exits[0].lineno))
+            else:
+                chk.ok("C01-D8", fi, loop, text, "runs to exhaustion")
+    fi = prog.func("Processor._get_nodes_by_search")
+    lone = inversion.lone_match_tests(fi)
+    if lone:
+        for n in lone:
+            chk.fail("C01-D4b", fi, n, "if " + src(n.test)[:60],
+                     "the test decides on the comparison result alone: for "
+                     "an inverted search the decision is the wrong way "
+                     "round")
+    else:
+        chk.ok("C01-D4b", fi, fi.node, "tests of the search handler",
+               "every test that reads a comparison result also reads the "
+               "inversion flag")
+
+
 def _iter_calls(fi: FuncInfo, suffix: str) -> List[ast.Call]:
     return [n for n in walk_local(fi.node) if isinstance(n, ast.Call)
             and src(n.func).endswith(suffix)]
@@ -559,6 +756,9 @@ def d6b_guard_completeness(chk: Check) -> None:
 def run(chk: Check) -> None:
     d6b_guard_completeness(chk)
     d1_dispatch(chk)
+    d1b_views(chk)
+    d7_every_child(chk)
+    d8_exhaustive(chk)
     d2_drivers(chk)
     d3_notation(chk)
     d4_inversion(chk)
